@@ -189,6 +189,21 @@ deriving DecidableEq, Repr, Inhabited
 def TW.intersects (a b : TW) : Bool := decide (a.s ≤ b.e) && decide (b.s ≤ a.e)
 def TW.valid (a : TW) : Bool := decide (a.s ≤ a.e)
 
+/-- a structured window that may have failed to parse: well-formed and `start ≤ end` -/
+def TW.validOpt : Option TW → Bool
+  | some t => t.valid
+  | none => false
+
+/-- two windows do not intersect (vacuous when one of them did not parse) -/
+def TW.disjointOpt : Option TW → Option TW → Bool
+  | some x, some y => !x.intersects y
+  | _, _ => true
+
+/-- the window meets `st` (vacuous when it did not parse) -/
+def TW.meetsOpt (st : TW) : Option TW → Bool
+  | some t => t.intersects st
+  | none => true
+
 /-- `get_time_window` on two strings -/
 def tw2 (a b : Tm) : Option TW :=
   match a, b with
@@ -246,14 +261,16 @@ def adjOk (skip : Bool) : List TW → Bool
   | a :: b :: rest => a.valid && b.valid && (skip || !a.intersects b) && adjOk skip (b :: rest)
   | _ => true
 
+/-- `check_time_windows` once every entry is a window: a single one is checked directly, otherwise
+    sort by start and look at neighbours (an empty list is rejected) -/
+def checkWs (skip : Bool) (ws : List TW) : Bool :=
+  match ws with
+  | [a] => a.valid
+  | _ => !ws.isEmpty && adjOk skip (sortTw ws)
+
 /-- `check_time_windows` -/
 def checkTimeWindows (tws : List (Option TW)) (skip : Bool) : Bool :=
-  if tws.any Option.isNone then false
-  else
-    let ws := tws.filterMap id
-    match ws with
-    | [a] => a.valid
-    | _ => !ws.isEmpty && adjOk skip (sortTw ws)
+  if tws.any Option.isNone then false else checkWs skip (tws.filterMap id)
 
 /-- `check_raw_time_windows` -/
 def checkRaw (raw : List (List Tm)) (skip : Bool) : Bool :=
@@ -330,10 +347,7 @@ def e1106 (d : Doc) : Bool :=
   !(d.jobs.filter (fun j => ((ctxTasks j).flatMap (fun t => t.places.map (·.dur))).any (· < 0))).isEmpty
 
 def e1107 (d : Doc) : Bool :=
-  !(d.jobs.filter (fun j => (ctxTasks j).any (fun t =>
-      match t.demand with
-      | some dm => dm.any (· < 0)
-      | none => false))).isEmpty
+  !(d.jobs.filter (fun j => (ctxTasks j).any (fun t => t.demand.any (fun dm => dm.any (· < 0))))).isEmpty
 
 /-! ## vehicles.rs -/
 
@@ -452,10 +466,14 @@ def maxMatrixIndex (d : Doc) : Nat :=
   let keys := coordKeys d
   max ((keys.map Loc.refIndex).foldl max 0) (max keys.length 1 - 1)
 
-/-- `(len as Float).sqrt().round() as usize` -/
-def roundSqrt (n : Nat) : Nat :=
-  let r := n.sqrt
-  if n > r * r + r then r + 1 else r
+/-- least `s ≥ s₀` with `n ≤ s² + s`, searched with `fuel` steps -/
+def roundSqrtGo (n : Nat) : Nat → Nat → Nat
+  | 0, s => s
+  | fuel + 1, s => if n ≤ s * s + s then s else roundSqrtGo n fuel (s + 1)
+
+/-- `(len as Float).sqrt().round() as usize`: the `s` with `(s − ½)² < n < (s + ½)²`, i.e. the least
+    `s` with `n ≤ s² + s` -/
+def roundSqrt (n : Nat) : Nat := roundSqrtGo n (n + 1) 0
 
 def e1500 (d : Doc) : Bool := hasDuplicates d.profiles
 def e1501 (d : Doc) : Bool := d.profiles.isEmpty
@@ -491,8 +509,7 @@ def e1603 (d : Doc) (os : List Obj) : Bool := (flatten os).any (· == .maxValue)
 def e1604 (d : Doc) (os : List Obj) : Bool := (flatten os).any (· == .tourOrder) && !hasOrderJobs d
 def e1605 (d : Doc) : Bool :=
   !(d.jobs.filter (fun j =>
-      ((allTasksIter j).filterMap (·.order)).any (· < 1)
-      || (match j.value2 with | some v => decide (v < 2) | none => false))).isEmpty
+      ((allTasksIter j).filterMap (·.order)).any (· < 1) || j.value2.any (fun v => decide (v < 2)))).isEmpty
 def e1606 (os : List Obj) : Bool := ((flatten os).filter ObjKind.isCost).length > 1
 def e1607 (d : Doc) (os : List Obj) : Bool :=
   if os.isEmpty then false
@@ -511,7 +528,7 @@ def e1201 (d : Doc) (rs : List Rel) : Bool :=
 def e1202 (rs : List Rel) : Bool := rs.any (fun r => !(r.jobs.any (fun j => !isReserved j)))
 
 def taskMulti (t : Task) : Bool :=
-  t.places.length > 1 || t.places.any (fun p => match p.times with | some tw => tw.length > 1 | none => false)
+  t.places.length > 1 || t.places.any (fun p => p.times.any (fun tw => tw.length > 1))
 
 def e1203 (d : Doc) (rs : List Rel) : Bool :=
   !(rs.flatMap (fun r =>
@@ -643,20 +660,14 @@ def pairwiseB (p : α → α → Bool) : List α → Bool
     allowed, as for reloads) -/
 def twListOk (raw : List (List Tm)) (allowIntersections : Bool) : Bool :=
   !raw.isEmpty
-  && raw.all (fun w => match parseTw w with | some t => t.valid | none => false)
-  && (allowIntersections ||
-      pairwiseB (fun a b => match parseTw a, parseTw b with
-        | some x, some y => !x.intersects y
-        | _, _ => true) raw)
+  && raw.all (fun w => TW.validOpt (parseTw w))
+  && (allowIntersections || pairwiseB (fun a b => TW.disjointOpt (parseTw a) (parseTw b)) raw)
 
 /-- the same criteria for windows that are already structured (`none` = not a valid date pair) -/
 def twOptListOk (tws : List (Option TW)) (allowIntersections : Bool) : Bool :=
   !tws.isEmpty
-  && tws.all (fun w => match w with | some t => t.valid | none => false)
-  && (allowIntersections ||
-      pairwiseB (fun a b => match a, b with
-        | some x, some y => !x.intersects y
-        | _, _ => true) tws)
+  && tws.all TW.validOpt
+  && (allowIntersections || pairwiseB TW.disjointOpt tws)
 
 /-- i-th component of the summed demand of some tasks (missing = 0) -/
 def dimSum (i : Nat) (ts : List Task) : Int :=
@@ -686,7 +697,7 @@ def shiftWindow (s : Shift) : Option TW :=
 def insideShift (s : Shift) (tws : List (Option TW)) : Bool :=
   match shiftWindow s with
   | none => true
-  | some st => tws.all (fun w => match w with | some t => t.intersects st | none => true)
+  | some st => tws.all (TW.meetsOpt st)
 
 /-- number of leaves of kind `k` in the objective tree -/
 def leafCount (k : ObjKind) (os : List Obj) : Nat :=
@@ -701,9 +712,9 @@ def allKinds : List ObjKind :=
 
 def costKinds : List ObjKind := [.minCost, .minDistance, .minDuration]
 
-def jobHasValue (d : Doc) : Bool := d.jobs.any (fun j => match j.value2 with | some v => decide (0 < v) | none => false)
+def jobHasValue (d : Doc) : Bool := d.jobs.any (fun j => j.value2.any (fun v => decide (0 < v)))
 def jobHasOrder (d : Doc) : Bool :=
-  d.jobs.any (fun j => (tasksOf j).any (fun t => match t.order with | some o => decide (0 < o) | none => false))
+  d.jobs.any (fun j => (tasksOf j).any (fun t => t.order.any (fun o => decide (0 < o))))
 
 /-- all locations of the document -/
 def locations (d : Doc) : List Loc :=
@@ -732,8 +743,19 @@ def isSquareOf (len n : Nat) : Bool := n * n == len
 
 def countId (id : String) (ids : List String) : Nat := ids.count id
 
-def optionalBreaks (s : Shift) : Nat :=
-  ((optList s.breaks).filter (fun b => match b with | .optTw _ _ => true | .optOff _ _ => true | _ => false)).length
+/-- an optional break (it becomes a job of its own) -/
+def isOptional : Break → Bool
+  | .optTw _ _ => true
+  | .optOff _ _ => true
+  | _ => false
+
+/-- a break given by offsets from the departure time -/
+def usesOffset : Break → Bool
+  | .reqOff _ _ _ => true
+  | .optOff _ _ => true
+  | _ => false
+
+def optionalBreaks (s : Shift) : Nat := ((optList s.breaks).filter isOptional).length
 
 /-- does the document break the documented rule? -/
 def violates (d : Doc) : Rule → Bool
@@ -747,9 +769,7 @@ def violates (d : Doc) : Rule → Bool
       !p.isEmpty && !dl.isEmpty &&
         (List.range (max (maxDims p) (maxDims dl))).any (fun i => dimSum i p != dimSum i dl))
   | .E1103 => d.jobs.any (fun j => (tasksOf j).any (fun t => t.places.any (fun p =>
-      match p.times with
-      | some tws => !twListOk tws false
-      | none => false)))
+      p.times.any (fun tws => !twListOk tws false))))
   | .E1104 => d.jobs.any (fun j => reservedIds.contains j.id)
   | .E1105 => d.jobs.any (fun j => (typedTasks j).isEmpty)
   | .E1106 => d.jobs.any (fun j => (tasksOf j).any (fun t => t.places.any (fun p => decide (p.dur < 0))))
@@ -761,32 +781,20 @@ def violates (d : Doc) : Rule → Bool
   | .E1202 => (optList d.relations).any (fun r => r.jobs.all (fun j => reservedIds.contains j))
   | .E1203 => (optList d.relations).any (fun r => r.jobs.any (fun j =>
       !reservedIds.contains j &&
-      match d.job? j with
-      | some jb => (tasksOf jb).any (fun t =>
-          decide (1 < t.places.length) ||
-          t.places.any (fun p => match p.times with | some tw => decide (1 < tw.length) | none => false))
-      | none => false))
+      (d.job? j).any (fun jb => (tasksOf jb).any (fun t =>
+          decide (1 < t.places.length) || t.places.any (fun p => p.times.any (fun tw => decide (1 < tw.length)))))))
   | .E1204 => (optList d.relations).any (fun r1 => (optList d.relations).any (fun r2 =>
       r1.vehicle != r2.vehicle && r1.jobs.any (fun j => !reservedIds.contains j && r2.jobs.contains j)))
   | .E1205 => (optList d.relations).any (fun r =>
-      match d.vehOf? r.vehicle with
-      | some v => decide (v.shifts.length ≤ r.shift.getD 0)
-      | none => false)
+      (d.vehOf? r.vehicle).any (fun v => decide (v.shifts.length ≤ r.shift.getD 0)))
   | .E1206 => (optList d.relations).any (fun r =>
-      match d.vehOf? r.vehicle with
-      | some v =>
-        (match v.shifts[r.shift.getD 0]? with
-         | some s =>
+      (d.vehOf? r.vehicle).any (fun v => (v.shifts[r.shift.getD 0]?).any (fun s =>
            decide (optionalBreaks s < countId "break" r.jobs)
            || decide ((optList s.reloads).length < countId "reload" r.jobs)
            || decide ((optList s.recharges).length < countId "recharge" r.jobs)
-           || (r.jobs.contains "arrival" && s.end_.isNone)
-         | none => false)
-      | none => false)
+           || (r.jobs.contains "arrival" && s.end_.isNone))))
   | .E1207 => (optList d.relations).any (fun r => r.jobs.any (fun j =>
-      match d.job? j with
-      | some jb => countId j r.jobs != (typedTasks jb).length
-      | none => false))
+      (d.job? j).any (fun jb => countId j r.jobs != (typedTasks jb).length)))
   -- E13xx vehicles
   | .E1300 => !nodupB (d.vehicles.map (·.typeId))
   | .E1301 => !nodupB (d.vehicles.flatMap (·.ids))
@@ -809,14 +817,11 @@ def violates (d : Doc) : Rule → Bool
       !raw.isEmpty && !(twListOk raw true && insideShift s (raw.map parseTw))))
   | .E1306 => d.vehicles.any (fun v => v.costTime == 0 && v.costDist == 0)
   | .E1307 => d.vehicles.any (fun v => v.shifts.any (fun s =>
-      (optList s.breaks).any (fun b => match b with | .reqOff _ _ _ => true | .optOff _ _ => true | _ => false)
-      && s.startL != some s.startE))
+      (optList s.breaks).any usesOffset && s.startL != some s.startE))
   | .E1308 =>
       !nodupB ((optList d.resources).map (·.id))
       || d.vehicles.any (fun v => v.shifts.any (fun s => (optList s.reloads).any (fun r =>
-          match r.res with
-          | some id => !((optList d.resources).map (·.id)).contains id
-          | none => false)))
+          r.res.any (fun id => !((optList d.resources).map (·.id)).contains id))))
   -- E15xx routing
   | .E1500 => !nodupB d.profiles
   | .E1501 => d.profiles.isEmpty
@@ -825,7 +830,7 @@ def violates (d : Doc) : Rule → Bool
   | .E1503 => (locations d).any (fun l => match l with | .idx _ => true | _ => false) && d.matrices.isEmpty
   | .E1504 => d.matrices.any (fun m => !isSquareOf m.dist (requiredSize d))
   | .E1505 => d.vehicles.any (fun v => !d.profiles.contains v.profile)
-      || (match d.clustering with | some p => !d.profiles.contains p | none => false)
+      || d.clustering.any (fun p => !d.profiles.contains p)
   -- E16xx objectives (only when the `objectives` property is present)
   | .E1600 => match d.objectives with
       | some os => os.isEmpty
@@ -844,8 +849,7 @@ def violates (d : Doc) : Rule → Bool
       | none => false
   | .E1605 => match d.objectives with
       | some _ => d.jobs.any (fun j =>
-          (match j.value2 with | some v => decide (v < 2) | none => false)
-          || (tasksOf j).any (fun t => match t.order with | some o => decide (o < 1) | none => false))
+          j.value2.any (fun v => decide (v < 2)) || (tasksOf j).any (fun t => t.order.any (fun o => decide (o < 1))))
       | none => false
   | .E1606 => match d.objectives with
       | some os => decide (1 < (costKinds.map (fun k => leafCount k os)).sum)
